@@ -49,7 +49,6 @@ CLASSES = ["sphere_interior", "sphere_boundary", "sphere_defaults", "cyl_interio
            "ell_even", "ell_ties", "ell_eccentric", "s_shell", "e_shell", "named",
            "alg_pair", "alg_dtypes", "alg_list", "alg_soft", "alg_files", "alg_real_outputs"]
 
-KEY_TIE = "ellipsoid-surface-rounding"   # mechanism key, effective only while listed as open in KNOWN_FINDINGS.txt; see classify_surface_rounding
 KEY_ECC = "ellipsoid-eccentric-core"     # mechanism key of the OPEN finding in KNOWN_FINDINGS.txt; see classify_eccentric
 
 
@@ -87,22 +86,6 @@ def _soft(ctx, fn, A, dom, result, core_fn=None):
         core = core_fn()
         w = O.compare_core(result, core)
         ctx.check("soft_core", w is None, None if w is None else dict(w, function=fn, args=_args_w(A, A.keys())))
-
-
-def classify_surface_rounding(result, exp, solids):
-    """Mechanism classifier `ellipsoid-surface-rounding`: the ONLY wrong voxels are voxels exactly on the surface of an ellipsoid
-    solid (integer lhs == rhs of the cross-multiplied inequality) that the solid omitted: missing from the mask for the (outer)
-    solid, left over in a shell for the inner solid.  Any other wrong voxel keeps the violation unkeyed.
-    solids: list of (lhs, rhs, role) with role 'outer' | 'inner'."""
-    got = np.asarray(result) != 0
-    bad = got != exp
-    explained = np.zeros_like(bad)
-    for lhs, rhs, role in solids:
-        tie = lhs == rhs
-        explained |= (tie & ~got & exp) if role == "outer" else (tie & got & ~exp)
-    if bad.any() and not (bad & ~explained).any():
-        return KEY_TIE, "all %d wrong voxels lie exactly on an ellipsoid surface and were omitted from that solid" % int(bad.sum())
-    return None, "%d wrong voxels are not exact-surface omissions" % int((bad & ~explained).sum())
 
 
 # ---- sphere ------------------------------------------------------------------------------------------------
@@ -198,13 +181,12 @@ def _ell_post(ctx, A, old, result):
         exp, lhs, rhs = O.ellipsoid(d["N"], d["c"], d["radii"])
         _count(ctx, "ellipsoid_voxels_exactly_on_surface", int((lhs == rhs).sum()))
         w = O.compare_hard(result, d["N"], exp)
-        key = None
         if w is not None:
             w.update(function="ellipsoid_mask", box=d["N"], centre=d["c"], radii=d["radii"])
             if "voxel" in w and w.get("what") == "membership":
                 w["lhs_over_rhs"] = float(lhs[w["voxel"]]) / float(rhs)
-                key, w["classifier"] = classify_surface_rounding(result, exp, [(lhs, rhs, "outer")])
-        ctx.check("ellipsoid", w is None, w, key=key)
+                w["exactly_on_surface"] = bool(lhs[w["voxel"]] == rhs)
+        ctx.check("ellipsoid", w is None, w)
     else:
         fn = "ellipsoid_mask"
         w = O.compare_range(result, d["N"])
@@ -292,47 +274,38 @@ def _esh_app(A):
 def _esh_post(ctx, A, old, result):
     d = A.pop("_dom")
     if d["sigma"] == 0:
-        eo, lo, ro = O.ellipsoid(d["N"], d["c"], d["ro"])
-        ei, li, ri = O.ellipsoid(d["N"], d["c"], d["ri"])
-        exp = eo & ~ei
+        exp = O.ellipsoid(d["N"], d["c"], d["ro"])[0] & ~O.ellipsoid(d["N"], d["c"], d["ri"])[0]
         w = O.compare_hard(result, d["N"], exp)
-        key = None
         if w is not None:
             w.update(function="ellipsoid_shell_mask", box=d["N"], centre=d["c"], outer=d["ro"], inner=d["ri"])
-            if w.get("what") == "membership":
-                key, w["classifier"] = classify_surface_rounding(result, exp, [(lo, ro, "outer"), (li, ri, "inner")])
-        ctx.check("e_shell", w is None, w, key=key)
+        ctx.check("e_shell", w is None, w)
     else:
         _soft(ctx, "ellipsoid_shell_mask", A, d, result)
 
 
 # ---- generate_mask -----------------------------------------------------------------------------------------
 def named_expected(kind, v, N):
-    """-> (expected bool array, ellipsoid solids for the rounding classifier) or None when the named shape on box N is outside
-    the quantifier"""
+    """-> expected bool array, or None when the named shape on box N is outside the quantifier"""
     c = tuple(n // 2 for n in N)
     F = O.Fraction
     if kind == "sphere":
-        return O.sphere(N, c, F(v["r"]))[0], []
+        return O.sphere(N, c, F(v["r"]))[0]
     if kind == "cylinder":
-        return O.cylinder(N, c, F(v["r"]), v["h"] // 2)[0], []
+        return O.cylinder(N, c, F(v["r"]), v["h"] // 2)[0]
     if kind == "s_shell":
         ro, ri = F(v["r"]) + F(v["s"], 2), F(v["r"]) - F(v["s"], 2)
         if ri < 0:
             return None
-        return O.sphere(N, c, ro)[0] & ~O.sphere(N, c, ri)[0], []
+        return O.sphere(N, c, ro)[0] & ~O.sphere(N, c, ri)[0]
     if any(n % 2 for n in N):
         return None
     radii = (v["rx"], v["ry"], v["rz"])
     if kind == "ellipsoid":
-        e, lhs, rhs = O.ellipsoid(N, c, radii)
-        return e, [(lhs, rhs, "outer")]
+        return O.ellipsoid(N, c, radii)[0]
     if v["s"] % 2 or min(radii) - v["s"] // 2 < 1:
         return None
     h = v["s"] // 2
-    eo, lo, ro = O.ellipsoid(N, c, tuple(r + h for r in radii))
-    ei, li, ri = O.ellipsoid(N, c, tuple(r - h for r in radii))
-    return eo & ~ei, [(lo, ro, "outer"), (li, ri, "inner")]
+    return O.ellipsoid(N, c, tuple(r + h for r in radii))[0] & ~O.ellipsoid(N, c, tuple(r - h for r in radii))[0]
 
 
 def _gm_app(A):
@@ -349,18 +322,14 @@ def _gm_post(ctx, A, old, result):
     if a.ndim != 3 or len(set(a.shape)) != 1 or not O.box_ok(a.shape):
         ctx.ood("generate_mask")
         return
-    ne = named_expected(kind, v, tuple(a.shape))
-    if ne is None:
+    exp = named_expected(kind, v, tuple(a.shape))
+    if exp is None:
         ctx.ood("generate_mask")
         return
-    exp, solids = ne
     w = O.compare_hard(a, a.shape, exp)
-    key = None
     if w is not None:
         w.update(function="generate_mask", name=A["mask_shape"], mask_size=A["mask_size"], box=list(a.shape))
-        if w.get("what") == "membership" and solids:
-            key, w["classifier"] = classify_surface_rounding(a, exp, solids)
-    ctx.check("generate_mask", w is None, w, key=key)
+    ctx.check("generate_mask", w is None, w)
 
 
 # ---- set algebra -------------------------------------------------------------------------------------------
